@@ -82,6 +82,8 @@ impl<T> Generational<T> {
         F: Fn(&T) -> V,
     {
         let result = f(&self.inner);
+        #[cfg(metrics_verif)]
+        metrics::verif::point("gen.applied");
         let _ = self.gen.fetch_add(1, Ordering::AcqRel);
         result
     }
